@@ -11,6 +11,7 @@ import UtilModel.Routine.ProofsObs6
 import UtilModel.Routine.ProofsObs7
 import UtilModel.Routine.ProofsObs8
 import UtilModel.Routine.ProofsObs9
+import UtilModel.Routine.ProofsObs10
 import UtilModel.Routine.ProofsAsm
 import UtilModel.Routine.ProofsRT
 import UtilModel.Routine.Monitors
@@ -569,6 +570,17 @@ theorem C14w_obs (es : List Ev) (s : St) (hr : model.run model.init es = some s)
     monC14w.accepts (es.filterMap model.obs) = true := by
   obtain ⟨ms, h, _⟩ := wl_run model.init s es good_init {} wlink_init {} linkA_init rfl hr
   have : monC14w.run monC14w.init (es.filterMap model.obs) = some ms := h
+  simp [ObsMonitor.accepts, this]
+
+/-- **C14, exit-callback groups, observable form** (`C14cb_obs`): the exit-callback clause of monitor C14 accepts
+the trace of every run of the model: the exit callbacks are called in groups 0, 1, …, ncb-1, all with the same
+error; a group is complete at every quiescence line; and the error of a group is the result of an instance that
+returned and has not been reported yet (a multiset: every result is reported at most once) or context.Canceled
+(an instance cancelled before it entered). -/
+theorem C14cb_obs (es : List Ev) (s : St) (hr : model.run model.init es = some s) :
+    monC14cb.accepts (es.filterMap model.obs) = true := by
+  obtain ⟨ms, h, _⟩ := cb_run model.init s {} es cblink_init hr
+  have : monC14cb.run monC14cb.init (es.filterMap model.obs) = some ms := h
   simp [ObsMonitor.accepts, this]
 
 /-- state form of the same fact: the critical section of a retry timer never cancels an instance that has not
